@@ -407,12 +407,12 @@ __get_dir(struct dt_dt_s d, const struct dseq_clo_s *clo)
 	with (struct dt_dt_s tmp = date_add(d, clo->ite, clo->nite)) {
 		if (tmp.t.u == d.t.u && tmp.d.u == d.d.u) {
 			return 0;
+		} else if (tmp.d.u != d.d.u) {
+			/* went past midnight, the carry says which way */
+			return (int32_t)(tmp.d.u - d.d.u) > 0 ? 1 : -1;
 		}
-	}
-	if (clo->ite->dv > 0) {
-		return 1;
-	} else if (clo->ite->dv < 0) {
-		return -1;
+		/* the sum of all components counts, not the first one */
+		return tmp.t.u > d.t.u ? 1 : -1;
 	}
 	return 0;
 }
